@@ -41,10 +41,21 @@ func throughRules(log []ev.Event, cfg *configuration.Configuration) (fwd []ev.Ev
 
 // encodeEvents drives an encoder with the log. It returns the bytes, and the event index and
 // panic value if the encoder panicked (errors are panics at this API level).
+// replayAuto delivers a log the way one of two producers would: with a fresh slice for the byte argument of every event,
+// or (for one log in three, chosen by the log's length so that a replay makes the same choice) from one reused 8 KiB buffer
+// with spare capacity behind every argument, as a decoder reading into a fixed buffer does. A receiver that keeps or
+// extends a slice it was handed shows up as a difference in whatever the check compares.
+func replayAuto(rcv events.DataEventReceiver, log []ev.Event) (int, interface{}) {
+	if len(log)%3 == 1 {
+		return ev.ReplayScratch(rcv, log, make([]byte, 8192))
+	}
+	return ev.Replay(rcv, log)
+}
+
 func encodeEvents(enc ce.Encoder, log []ev.Event) (doc []byte, failIdx int, why interface{}) {
 	var buf bytes.Buffer
 	enc.PrepareToEncode(&buf)
-	idx, p := ev.Replay(enc, log)
+	idx, p := replayAuto(enc, log)
 	return buf.Bytes(), idx, p
 }
 
@@ -53,7 +64,7 @@ func encodeWithRules(enc ce.Encoder, log []ev.Event, cfg *configuration.Configur
 	var buf bytes.Buffer
 	enc.PrepareToEncode(&buf)
 	r := rules.NewRules(enc, cfg)
-	idx, p := ev.Replay(r, log)
+	idx, p := replayAuto(r, log)
 	return buf.Bytes(), idx, p
 }
 
